@@ -27,7 +27,11 @@ func runC03(c *core.Ctx) {
 		return
 	}
 	k := drawC01Knobs(c)
-	k.trickle = false
+	// Candidates are trickled in a third of the runs: a remote first learned as peer-reflexive is then replaced
+	// by the signalled candidate, possibly after its pair was selected. In those runs the priority rule is not
+	// judged (the priorities this oracle reads afterwards are no longer those the agent decided on); "validated
+	// and nominated" is.
+	k.trickle = c.T.Bias(1, 3, "c03trickle")
 	if k.blockPct > 40 {
 		k.blockPct = 40
 	}
@@ -74,6 +78,10 @@ func runC03(c *core.Ctx) {
 	}
 	led := rig.NewLedger(d)
 	o := &c03Oracle{c: c, d: d, led: led, liteB: k.liteB, litePrio: liteOpt, seen: map[string]int{}, last: map[string]rig.PairEv{}}
+	// one run in ten has somebody on the path who appends attributes behind MESSAGE-INTEGRITY
+	o.trickle = k.trickle
+	o.tamperRun = c.T.Bias(1, 10, "tamper-run")
+	c.Knob("tamperRun", o.tamperRun)
 	sess := &c01Session{c: c, d: d, k: k, noOracles: true}
 	sess.hook = func(string) {
 		if c.Failed() {
@@ -105,14 +113,16 @@ func runC03(c *core.Ctx) {
 }
 
 type c03Oracle struct {
-	c        *core.Ctx
-	d        *rig.Duo
-	led      *rig.Ledger
-	liteB    bool
-	litePrio bool
-	seen     map[string]int
-	last     map[string]rig.PairEv
-	seq      uint32
+	c         *core.Ctx
+	d         *rig.Duo
+	led       *rig.Ledger
+	liteB     bool
+	litePrio  bool
+	seen      map[string]int
+	last      map[string]rig.PairEv
+	seq       uint32
+	tamperRun bool
+	trickle   bool
 }
 
 func parseAP(s string) netip.AddrPort { return netip.MustParseAddrPort(s[4:]) }
@@ -153,6 +163,10 @@ func (o *c03Oracle) check() {
 			c.Logf("selected %s %s<->%s", ag.Name, ev.Local, ev.Remote)
 			switch {
 			case lite && !controlling:
+				if !side.NominatedBy[key] && side.UnprotectedNomBy[key] {
+					c.Failf("C03/nominated-by-attribute-behind-integrity", "lite controlled %s selected %s<->%s: the only USE-CANDIDATE/nomination delivered on that pair stood behind the MESSAGE-INTEGRITY of an authentic request", ag.Name, ev.Local, ev.Remote)
+					break
+				}
 				if !side.NominatedBy[key] {
 					c.Failf("C03/lite-selected-without-nomination", "lite controlled %s selected %s<->%s but no authentic nomination was delivered on that pair", ag.Name, ev.Local, ev.Remote)
 				}
@@ -164,6 +178,10 @@ func (o *c03Oracle) check() {
 					c.Failf("C03/controlling-selected-unnominated", "controlling %s selected %s<->%s but no answered request of its own on that pair carried USE-CANDIDATE", ag.Name, ev.Local, ev.Remote)
 				}
 			default:
+				if side.Validated[key] && !side.NominatedBy[key] && side.UnprotectedNomBy[key] {
+					c.Failf("C03/nominated-by-attribute-behind-integrity", "controlled %s selected %s<->%s: the only USE-CANDIDATE/nomination delivered on that pair stood behind the MESSAGE-INTEGRITY of an authentic request (appended on the path, covered by nothing)", ag.Name, ev.Local, ev.Remote)
+					break
+				}
 				if !side.Validated[key] {
 					c.Failf("C03/controlled-selected-unvalidated", "controlled %s selected %s<->%s without an answered check of its own on that pair", ag.Name, ev.Local, ev.Remote)
 				} else if !side.NominatedBy[key] {
@@ -173,10 +191,12 @@ func (o *c03Oracle) check() {
 			// priority rule for plain USE-CANDIDATE on the controlled side
 			if prev, ok := o.last[ag.Name]; ok && !controlling && (prev.Local != ev.Local || prev.Remote != ev.Remote) {
 				c.Probe("controlled-reselection")
-				if (!lite || o.litePrio) && !side.NomValueBy[key] {
+				if (!lite || o.litePrio) && !side.NomValueBy[key] && !o.trickle {
 					pOld, ok1 := o.pairPrio(ag, false, prev)
 					pNew, ok2 := o.pairPrio(ag, false, ev)
-					if ok1 && ok2 && pNew < pOld {
+					if ok1 && ok2 && pNew < pOld && side.UnprotectedNomBy[key] {
+						c.Failf("C03/nominated-by-attribute-behind-integrity", "%s moved its selection to the lower-priority pair %s<->%s; a nomination had been delivered on that pair only behind the MESSAGE-INTEGRITY of an authentic request (covered by nothing)", ag.Name, ev.Local, ev.Remote)
+					} else if ok1 && ok2 && pNew < pOld {
 						c.Failf("C03/plain-use-candidate-lowered-priority", "%s moved its selection from %s<->%s (prio %d) to %s<->%s (prio %d) on a plain USE-CANDIDATE",
 							ag.Name, prev.Local, prev.Remote, pOld, ev.Local, ev.Remote, pNew)
 					}
@@ -198,8 +218,46 @@ func (o *c03Oracle) check() {
 
 // adversary injects an authentic request (right username, right integrity, opposite role attribute)
 // with USE-CANDIDATE and/or a nomination value on any pair, from any address.
+// tamper: somebody on the path (no credentials) copies an authentic Binding request that is in flight towards
+// the controlled agent, appends USE-CANDIDATE (or a nomination value) behind its MESSAGE-INTEGRITY, fixes the
+// FINGERPRINT and delivers the copy. The appended attribute is covered by nothing: it must not nominate.
+func (o *c03Oracle) tamper() bool {
+	c, d := o.c, o.d
+	ids := hostSockIDs(d.W, d.HA)
+	var cands []*simnet.Datagram
+	for _, dg := range d.W.InFlight() {
+		if !ids[dg.SockID] || dg.Dup {
+			continue
+		}
+		m := rig.Decode(dg.Payload)
+		if m.IsSTUN && m.Class == stun.ClassRequest && m.Method == stun.MethodBinding && m.HasIntegrity && !m.UseCandidate && m.Nomination == nil {
+			cands = append(cands, dg)
+		}
+	}
+	if len(cands) == 0 {
+		return false
+	}
+	dg := cands[c.T.Choose(len(cands), "tamperwhich")]
+	t, v := stun.AttrUseCandidate, []byte(nil)
+	if c.T.Bias(1, 3, "tampernom") {
+		t, v = stun.AttrType(ice.DefaultNominationAttribute), []byte{0, 0, 0, byte(1 + c.T.Choose(40, "tampernomval"))}
+	}
+	out, ok := rig.AppendAfterIntegrity(dg.Payload, t, v)
+	if !ok {
+		return false
+	}
+	cp := d.W.Inject(dg.Src, dg.Dst, out, "tampered")
+	c.Fault("tampered-attribute-behind-integrity")
+	c.Logf("tamper: %s appended behind MESSAGE-INTEGRITY of %s", t, d.Tx.Describe(dg))
+	_, _ = d.S.Deliver(cp)
+	return true
+}
+
 func (o *c03Oracle) adversary() {
 	c, d := o.c, o.d
+	if o.tamperRun && c.T.Bias(1, 2, "tamper") && o.tamper() {
+		return
+	}
 	target, peer := d.B, d.A
 	if c.T.Bias(1, 4, "attackcontrolling") {
 		target, peer = d.A, d.B
